@@ -117,6 +117,10 @@ pub enum Expect {
 }
 
 pub fn expectation(rootfd: i32, path: &str, nosym: bool) -> Expect {
+    if path.contains('\0') {
+        // only expressible through the Rust facade; no system call can take it
+        return Expect::Refused("embedded NUL byte".into());
+    }
     let trimmed = path.trim_end_matches('/');
     if path.ends_with('/') && !trimmed.is_empty() {
         return Expect::Refused("trailing slash".into());
@@ -274,6 +278,12 @@ pub fn gen_seq_case(seed: u64, idx: u64, uni: &UniCfg) -> Case {
                 s.facade = Facade::C;
             } else if rng.chance(1, 6) {
                 s.no_symlinks = true;
+            }
+            if s.facade == Facade::Rust && rng.chance(1, 30) {
+                if let Op::RemoveAll { path } = &mut s.op {
+                    let v = *rng.pick(&["..\0x", ".\0x", "/..\0", "\0", "a/..\0y"]);
+                    *path = if rng.chance(1, 2) { v.to_string() } else { format!("{path}/{v}") };
+                }
             }
             s
         })
